@@ -20,7 +20,7 @@ ASSUMPTIONS = ["parities are decoded from the clause list (clauses grouped by va
                "adversarial answers are legal values of the random functions (positive probability outcomes)"]
 REQUIRED = ["kcnf_ok", "kxor_ok", "refusals_expected", "dense_branch_kcnf", "dense_branch_kxor",
             "adversary_engaged", "cli_runs", "at_exact_maximum", "big_at_exact_maximum", "big_planted"]
-CASE_TIMEOUT = {"quick": 120, "thorough": 900}
+CASE_TIMEOUT = {"quick": 120, "thorough": 2400}
 
 
 def planted_sets(n, r, howmany):
@@ -187,6 +187,19 @@ def case_lib(ctx, family, k, n, nplanted, rseed, reps):
             seed = r.randint(-5, 10 ** 6)
             label = "%s(k=%d,n=%d,m=%d,planted=%r,seed=%d,%s)" % (gen.__name__, k, n, m, planted, seed, mode)
             pl_arg = [list(a) for a in planted]
+            container = ("list", "tuple", "set", "dict-keys", "frozenset")[(rep + m + nplanted) % 5] if planted else "list"
+            if container == "tuple":
+                pl_arg = tuple(tuple(a) for a in planted)
+            elif container == "set":
+                pl_arg = {tuple(a) for a in planted}            # the documentation calls it "a set of assignments"
+            elif container == "dict-keys":
+                pl_arg = {tuple(a): None for a in planted}.keys()
+            elif container == "frozenset":
+                pl_arg = frozenset(frozenset(a) for a in planted)
+            ctx.count("planted_given_as_" + container)
+            canon = lambda P: (type(P).__name__, len(P), sorted(tuple(sorted(a, key=abs)) for a in P),
+                               [list(a) for a in P] if isinstance(P, (list, tuple)) else None)
+            pl_before = canon(pl_arg)
             with BranchTap(mod, dense_name) as tap:
                 if mode == "fair":
                     st, F = ctx.call(gen, k, n, m, seed=seed, planted_assignments=pl_arg)
@@ -197,7 +210,7 @@ def case_lib(ctx, family, k, n, nplanted, rseed, reps):
                         ctx.count("adversary_engaged")
             if tap.hits:
                 ctx.count("dense_branch_" + family)
-            if pl_arg != planted:
+            if canon(pl_arg) != pl_before:
                 ctx.violation("rand%s:mutates-planted" % family, "%s changed its planted assignments" % label)
             if st == "exc":
                 if isinstance(F, ValueError) and not feasible:
@@ -334,6 +347,31 @@ def case_size_sweep(ctx, sizes, rseed):
                 ctx.judged(("sweep", "kxor", k, n, m, len(planted)), nontrivial=m > 0, sample={"call": label})
 
 
+def case_dense_big_universe(ctx, rseed):
+    """Parities compatible with five planted assignments are 1 in 32: the sparse sampler gives up and the dense one
+    enumerates a universe of more than 10^7 parities.  The request is small and feasible."""
+    import cnfgen.families.randomkxor as rx
+    r = ctx.rng("c13dense", rseed)
+    for (k, n, m, npl) in ((3, 312, 20, 5),):
+        planted = planted_sets(n, r, npl)
+        seed = r.randint(0, 10 ** 6)
+        label = "RandomKXOR(k=%d,n=%d,m=%d,planted x%d,seed=%d)" % (k, n, m, npl, seed)
+        with BranchTap(rx, "all_good_parities") as tap:
+            st, F = ctx.call(rx.RandomKXOR, k, n, m, seed=seed, planted_assignments=[list(a) for a in planted])
+        if tap.hits:
+            ctx.count("dense_branch_kxor")
+            ctx.count("dense_branch_beyond_10^7")
+        if st == "exc":
+            ctx.violation("randkxor:%s" % ("refuses-feasible" if isinstance(F, ValueError) else "raises:" + type(F).__name__), "%s raised %r" % (label, F))
+        else:
+            sets = [set(a) for a in planted]
+            if len(F) != m * 2 ** (k - 1) or F.number_of_variables() != n:
+                ctx.violation("randkxor:shape", "%s: %d clauses / %d variables" % (label, len(F), F.number_of_variables()))
+            elif any(not any(l in a for l in c) for a in sets for c in F):
+                ctx.violation("randkxor:planted-falsified", "%s: a clause is falsified by a planted assignment" % label)
+        ctx.judged(("dense-big", k, n, m, npl), nontrivial=True, sample={"call": label, "dense": bool(tap.hits)})
+
+
 def case_astronomical(ctx, rseed):
     """Requests for a handful of clauses / parities out of a universe far beyond any machine number (C(n,k)*2^k above
     1e308, n up to 2^62): they are satisfiable requests like any other."""
@@ -365,6 +403,8 @@ def case_astronomical(ctx, rseed):
 
 def workload(tier, seed):
     import math
+    if tier != "quick":
+        yield "dense_big_universe", {"rseed": seed}      # minutes: the dense sampler walks through 10^7 parities
     yield "astronomical", {"rseed": seed}
     sweep = list(range(1 + seed % 4, 330, 4)) if tier == "quick" else list(range(1, 700))
     for i in range(0, len(sweep), 20):
